@@ -27,14 +27,14 @@ def conv(name):
     return getattr(C, name)
 
 
-def _src_chart(ctx, game, tag, n=2):
+def _src_chart(ctx, game, tag, n=2, keys=4):
     """one source chart: n hits, n holds, 2 tempo points, SVs for SV games; all times symbolic."""
     t = ctx.reals(tag + "t", 2 * n + 3)
     ln = ctx.reals(tag + "len", n)
     b = ctx.reals(tag + "bpm", 2)
     for x in b:
         ctx.assume(x > 0)
-    hits = [(t[i], 3 if i == n - 1 else i % 3) for i in range(n)]  # the last hit keeps the key count at 4 through every history
+    hits = [(t[i], keys - 1 if i == n - 1 else i % 3) for i in range(n)]  # the last hit keeps the key count at 4 through every history
     holds = [(t[n + i], (i + 1) % 4, ln[i]) for i in range(n)]
     bpms = [(t[2 * n], b[0]), (t[2 * n + 1], b[1])]
     svs = [(t[2 * n + 2], ctx.real(tag + "mult"))] if game in SV_GAMES else ()
@@ -45,11 +45,14 @@ def _src_chart(ctx, game, tag, n=2):
     return m
 
 
-def _source(ctx, game):
+SM_TYPES = {3: "dance-threepanel", 4: "dance-single", 5: "pump-single", 6: "dance-solo", 7: "kb7-single", 8: "dance-double", 9: "pnm-nine"}
+
+
+def _source(ctx, game, keys=4):
     """-> (source object handed to the converter, list of its charts, expected meta per chart)."""
     C = classes(game)
     if game in ("sm", "o2j"):
-        maps = [_src_chart(ctx, game, "a"), _src_chart(ctx, game, "b", n=1)]
+        maps = [_src_chart(ctx, game, "a", keys=keys), _src_chart(ctx, game, "b", n=1)]
         ms = C["MapSet"]()
         ms.maps = maps
         ms.title, ms.artist = TITLE, ARTIST
@@ -57,7 +60,7 @@ def _source(ctx, game):
             ms.credit = CREATOR
             ms.offset = 0.0
             ms.sample_start = 12.0
-            maps[0].chart_type, maps[1].chart_type = "dance-single", "dance-single"
+            maps[0].chart_type, maps[1].chart_type = SM_TYPES[keys], "dance-single"
             maps[0].difficulty, maps[0].difficulty_val, maps[0].description = "Hard", 7, "DescA"
             maps[1].difficulty, maps[1].difficulty_val, maps[1].description = "Easy", 2, "DescB"
             names = [("Hard", "7", "DescA"), ("Easy", "2", "DescB")]
@@ -67,15 +70,15 @@ def _source(ctx, game):
             ms.bpm = 120.0
             names = [("3",), ("14",)]
         return ms, maps, names
-    m = _src_chart(ctx, game, "a")
+    m = _src_chart(ctx, game, "a", keys=keys)
     if game == "osu":
         m.title, m.artist, m.creator, m.version = TITLE, ARTIST, CREATOR, DIFF
         m.title_unicode, m.artist_unicode = TITLE, ARTIST
-        m.circle_size = 4
+        m.circle_size = keys
         m.tags = ["x", "y"]
     elif game == "qua":
         m.title, m.artist, m.creator, m.difficulty_name = TITLE, ARTIST, CREATOR, DIFF
-        m.mode = "Keys4"
+        m.mode = {4: "Keys4", 7: "Keys7", 8: "Keys8"}[keys]
     elif game == "bms":
         m.title, m.artist, m.version = TITLE.encode(), ARTIST.encode(), DIFF.encode()
     return m, [m], [(DIFF,)]
@@ -203,7 +206,7 @@ def _check_meta(ctx, label, tgt_game, dst, holder, src_game, name_parts):
 def ob_convert(cname, history, ctx, merge=False):
     src_game, tgt_game = CONVERTERS[cname]
     cv = conv(cname)
-    src, charts, names = _source(ctx, src_game)
+    src, charts, names = _source(ctx, src_game, ctx.params.get("keys", 4))
     new = _apply_history(ctx, history, charts)
     if src_game in ("sm", "o2j"):
         src.maps = new
@@ -216,6 +219,8 @@ def ob_convert(cname, history, ctx, merge=False):
     if cname in SHIFT and ctx.params.get("shift") is not None:
         shift = ctx.params["shift"]
         kw["move_right_by"] = shift
+    if ctx.params.get("raise_bad_mode") is not None:
+        kw["raise_bad_mode"] = ctx.params["raise_bad_mode"]
     out = cv.convert_merge(src) if merge else cv.convert(src, **kw)
     # ---- shape: one target chart per source chart --------------------------------------------------
     T = classes(tgt_game)
@@ -251,6 +256,16 @@ def obligations(tier, seed):
             for sh in ((2,) if quick else (1, 2, 3)):
                 obs.append(Obligation("C08/%s/shift%d" % (cname, sh), partial(ob_convert, cname, "stack"), params=dict(shift=sh),
                                       bound="%s with move_right_by=%d after a stack edit" % (cname, sh)))
+    # other key counts; and targets that cannot represent the key count, converted with raise_bad_mode=False
+    KEYS = {"OsuToQua": (7, 8), "OsuToSM": (3, 6, 7, 8), "OsuToBMS": (7, 8), "QuaToOsu": (7, 8), "QuaToSM": (7, 8), "QuaToBMS": (7,),
+            "SMToOsu": (6, 7, 8), "SMToQua": (7, 8), "SMToBMS": (6, 8), "BMSToOsu": (7, 8), "BMSToQua": (7, 8), "BMSToSM": (6, 7, 8)}
+    for cname, ks in KEYS.items():
+        for kk in (ks[:1] if quick else ks):
+            obs.append(Obligation("C08/%s/keys%d" % (cname, kk), partial(ob_convert, cname, "stack"), params=dict(keys=kk),
+                                  bound="%s on a %d-key source after a stack edit" % (cname, kk)))
+    for cname, kk in (("OsuToQua", 5), ("OsuToSM", 5), ("BMSToQua", 6), ("SMToQua", 6)):
+        obs.append(Obligation("C08/%s/bad-mode-keys%d" % (cname, kk), partial(ob_convert, cname, "fresh"), params=dict(keys=kk, raise_bad_mode=False),
+                              bound="%s on a %d-key source with raise_bad_mode=False (the target has no such mode): content must still be carried" % (cname, kk)))
     for h in HISTORIES:
         obs.append(Obligation("C08/O2JToSM.merge/%s" % h, partial(ob_convert, "O2JToSM", h, merge=True),
                               bound="O2JToSM.convert_merge on a 2-chart O2Jam mapset; source history: %s" % h))
